@@ -72,6 +72,8 @@ prop('C17', level='proof',
      explanation=STEP_NOTE + 'Groups: step_HALT (empty assigns), execute (conditional assigns), dbg_reset, dbg_clearBreakpoints, dbg_isDone, dbg_getCurrentBreak.',
      not_decided='constructor; completeness of the site restore in clearBreakpoints is in the thorough tier', trusted=VM_TRUST + DBG_TRUST)
 
+prop('C08', level='proof', claim='wip', note='wip', explanation='wip')
+
 HOOK_COMMITS = ['019397c']
 
 NOT_APPLICABLE = {
